@@ -71,7 +71,8 @@ def extend(cr, tier, seed, workers):
     cov['samples'] = list(cov['samples'])[:2] + cr2.coverage['samples'][:2]
     cov['rule'] += ' || (b) BFS over histories (push, another pull request ' \
         'moving the destination, CI reports S/F/INPROGRESS on integration ' \
-        'tips, stale reports) with the c06 monitor: on Queued / direct ' \
+        'tips, stale reports, developer commits on integration branches) ' \
+        'with the c06 monitor: on Queued / direct ' \
         'merge every integration commit must be SUCCESSFUL in the host ' \
         'table; BuildNotStarted/BuildInProgress jobs must not comment; ' \
         'non-trivial = transitions on which the gate let a pull request ' \
